@@ -219,8 +219,8 @@ type Atom uint64
 
 // NewAtom interns the given string and returns an Atom.
 func NewAtom(name string) Atom {
-	// A one-char atom is just a rune.
-	if r, n := utf8.DecodeLastRuneInString(name); r != utf8.RuneError && n == len(name) {
+	// A one-char atom is just a rune. U+FFFD itself decodes as (RuneError, 3); an invalid byte as (RuneError, 1).
+	if r, n := utf8.DecodeLastRuneInString(name); (r != utf8.RuneError || n == 3) && n == len(name) {
 		return Atom(r)
 	}
 
